@@ -1,9 +1,5 @@
 """X13 (extra): the repository's own test programs as the workload - every byte-buffer and checksum call they make (directly or through
 length-prefix, varint, endpoints, protocol code) is recorded by link-time interposition and validated by TLC against ByteBuffer.tla / Crc16.tla."""
-import glob
-import json
-import os
-import subprocess
 import vf
 
 META = dict(not_applicable='extra behaviour beyond the listed properties; run by bin/extras')
@@ -12,45 +8,10 @@ META = dict(not_applicable='extra behaviour beyond the listed properties; run by
 def run(tier):
     v = vf.Verdict('X13', tier)
     vf.build()
-    lock = os.path.join(vf.BUILD, '.lock')
-    r = subprocess.run('flock %s make -s -C %s -j%d suite' % (lock, os.path.join(vf.ROOT, 'harness'), vf.NCPU), shell=True,
-                       stdout=subprocess.PIPE, stderr=subprocess.STDOUT, text=True)
-    if r.returncode != 0:
-        print(r.stdout[-3000:])
-        vf.die('build of the wrapped test programs failed')
-    out = vf.outdir('X13')
-    base = os.path.join(out, 'suite-trace')
-    for suffix in ('.bb', '.crc'):
-        if os.path.exists(base + suffix):
-            os.remove(base + suffix)
-    progs = sorted(p for p in glob.glob(os.path.join(vf.BUILD, 'suite', 't-*')) if not p.endswith('.d'))
-    tap_ok = 0
-    for p in progs:
-        env = dict(os.environ, UFW_SUITE_TRACE=base, ASAN_OPTIONS='detect_leaks=0')
-        r = subprocess.run([p], env=env, stdout=subprocess.PIPE, stderr=subprocess.STDOUT, text=True, timeout=900)
-        bad = [ln for ln in r.stdout.split('\n') if ln.startswith('not ok')]
-        tap_ok += sum(1 for ln in r.stdout.split('\n') if ln.startswith('ok'))
-        if r.returncode != 0 or bad:
-            v.problem('SUITE/' + os.path.basename(p), ['#suite ' + os.path.basename(p)], 'test program fails when linked against the wrappers: rc=%d %s' % (r.returncode, bad[:2]))
-    n_bb = sum(1 for _ in open(base + '.bb'))
-    n_crc = sum(1 for _ in open(base + '.crc'))
-    for mod, cfg, path, n in (('ByteBufferSuite.tla', 'ByteBufferSuite.cfg', base + '.bb', n_bb), ('Crc16Trace.tla', 'Crc16Trace.cfg', base + '.crc', n_crc)):
-        ok, matched, r = vf.validate_trace(mod, cfg, path, 'suite')
-        if not ok:
-            ok, matched, r = vf.validate_trace(mod, cfg, path, 'suite')
-        v.add_tlc(r)
-        if not ok:
-            lines = open(path).read().split('\n')
-            bad = min(matched, len(lines) - 1)
-            v.problem('TRACE/' + mod, ['#trace %s %s' % (mod, cfg)] + lines[max(0, bad - 1):bad + 1],
-                      'specification rejects recorded event %s %s' % (lines[bad][:300], (r.violation or '').split('\n')[0]))
-    calls = sum(1 for ln in open(base + '.bb') if '"adopt"' not in ln and '"@"' not in ln and '"skipped"' not in ln)
-    skipped = sum(json.loads(ln)['a'][0] for ln in open(base + '.bb') if '"skipped"' in ln)
-    v.cov['traces_validated_against_impl'] += len(progs)
-    v.cov['evaluations'] += calls + n_crc
-    v.cov['distinct_nontrivial'] += len(set(ln for ln in open(base + '.bb') if '"adopt"' not in ln and '"@"' not in ln))
+    nprogs, tap_ok, counts, skipped = vf.suite_flow(v, ('bb', 'crc'))
+    v.cov['distinct_nontrivial'] += sum(counts.values())
     v.cov['rule'] = ('%d test programs of the repository (%d TAP assertions, all passing with the wrappers in place); %d recorded byte-buffer calls '
                      '(%d on objects that are not well-formed or larger than 1 KiB were let through unrecorded) and %d checksum calls, each validated as the '
-                     'action of that name from the recorded pre-state, with the action properties of C18 checked on every step' % (len(progs), tap_ok, calls, skipped, n_crc))
+                     'action of that name from the recorded pre-state, with the action properties of C18 checked on every step' % (nprogs, tap_ok, counts['bb'], skipped, counts['crc']))
     v.cov['exhaustive'] = False
     v.finish()
